@@ -186,6 +186,10 @@ class PageRenderer:
         text = self._format_group_header(info)
         if not text:
             return ""
+        # Escape the heading like any other text (non-ASCII -> \u sequences)
+        from ..row import TextContent
+
+        text = TextContent(text=text, convert=False)._convert_special_chars()
         return rf"{{\pard\hyphpar\fi0\li0\ri0\ql\fs18{{\f0 {text}}}\par}}"
 
     def _render_column_headers(self, document: Any, page: PageContext) -> list[str]:
